@@ -202,7 +202,8 @@ CATALOGUE['C15'] += [
   (F, 'R-ASKED', '_getreader.py', "            if ext in rdict:\n                _myreaders.insert(0, (ext, rdict[ext]))", "            if ext in rdict:\n                if getattr(rdict[ext], 'isMine', False):\n                    return rdict[ext]"),
   (F, 'R-SNIFFAGREE', _FFI, "readline().strip()[-4:]", "readline().split()[-1]"),
   (S, None, _FFI, "readline().strip()[-4:]", "readline().rstrip()[-4:]"),
-  (F, 'R-ISMINEPURE', 'camxfiles/uamiv/Memmap.py', "        return name in ('AIRQUALITY', 'EMISSIONS', 'INSTANT', 'AVERAGE')", "        return name in _uamiv_names\n\n\n_uamiv_names = (k for k in ('AIRQUALITY', 'EMISSIONS', 'INSTANT', 'AVERAGE'))"),
+  (F, 'R-ISMINEPURE', 'camxfiles/uamiv/Memmap.py', ("        return name in ('AIRQUALITY', 'EMISSIONS', 'INSTANT', 'AVERAGE')", "\nclass uamiv(ioapi_base):"),
+   ("        return name in _uamiv_names", "\n_uamiv_names = (k for k in ('AIRQUALITY', 'EMISSIONS', 'INSTANT', 'AVERAGE'))\n\n\nclass uamiv(ioapi_base):")),
 ]
 CATALOGUE['C18'] += [
   (F, 'R-KWFORWARD', 'geoschemfiles/_bpchmaster.py', "            nogroup=nogroup, noscale=noscale,\n            vertgrid=vertgrid\n        )", "            nogroup=nogroup,\n            vertgrid=vertgrid\n        )"),
@@ -252,6 +253,103 @@ CATALOGUE['C13'] += [
   (S, None, 'camxfiles/uamiv/Read.py', "            timediff((self.start_date, self.start_time), (d, t), 24) /", "            timediff((self.start_date, self.start_time), (d, t), eod=24.0) /"),
   (F, 'R-WINDCOUNT', 'camxfiles/wind/Memmap.py', "        step_size = (self.__time_hdr_fmts_size + 8 + record * 2 * lays +\n                     self.__dummy_length * 4)", "        step_size = (self.__time_hdr_fmts_size + 8 + record * 2 * lays)"),
   (S, None, 'camxfiles/wind/Memmap.py', "        step_size = (self.__time_hdr_fmts_size + 8 + record * 2 * lays +\n                     self.__dummy_length * 4)", "        step_size = (4 * self.__dummy_length + 2 * lays * record +\n                     8 + self.__time_hdr_fmts_size)"),
+]
+
+CATALOGUE['C10'] += [
+  (F, 'R-VGLEN', _IO, "                nlayb[:, 0], nlayb[-1, 1]).view(np.ndarray)", "                nlayb[:, 0], nlayb[:, 1]).view(np.ndarray)"),
+  (F, 'R-VGLEN', _IO, "        outf = PseudoNetCDFFile.applyAlongDimensions(self, *args, **kwds)\n        if 'LAY' in kwds:", "        outf = PseudoNetCDFFile.applyAlongDimensions(self, *args, **kwds)\n        if isinstance(kwds.get('LAY', None), str):"),
+  (S, None, _IO, "                nlayb[:, 0], nlayb[-1, 1]).view(np.ndarray)", "                nlayb[:, 0], nlayb[-1, 1]).astype('f').view(np.ndarray)"),
+]
+
+# ---- entries for the rules generalised after the second held-out wave
+_F = 'core/_files.py'
+_FN = 'core/_functions.py'
+CATALOGUE['C01'] += [
+  (F, 'R-NONEGUARD', _F, "        if dimlen is None:\n            dimlen = len(dim)\n", "        dimlen = dimlen or len(dim)\n"),
+  (F, 'R-AXISPERM', _F, "            outvals = v[...]\n            for di, dk in sdims:\n                outvals = outvals.take(0, axis=di)\n\n            ov[...] = outvals[...]", "            ov[...] = np.squeeze(v[...])"),
+]
+CATALOGUE['C02'] += [
+  (F, 'R-MASKKEEP', _F, "                newvaro[...] = newvals.reshape(newvaro.shape)", "                newvaro[...] = np.resize(newvals, newvaro.shape)"),
+  (F, 'R-SLICELEN', _F, "            dv = self.dimensions[dk]\n            if dk in dimslices:\n                if dk in self.variables:", "            dv = self.dimensions[dk]\n            if isinstance(ds, slice):\n                start, stop, step = ds.indices(len(dv))\n                newdl = max(0, (stop - start + step - 1) // step)\n            elif dk in dimslices:\n                if dk in self.variables:"),
+  (S, None, _F, "            dv = self.dimensions[dk]\n            if dk in dimslices:\n                if dk in self.variables:", "            dv = self.dimensions[dk]\n            if isinstance(ds, slice):\n                newdl = len(range(*ds.indices(len(dv))))\n            elif dk in dimslices:\n                if dk in self.variables:"),
+]
+CATALOGUE['C04'] += [
+  (F, 'R-ONCE', _F, "        dimensions = [f_.dimensions for f_ in fs]\n        shareddims = {}", "        dimensions = [self.dimensions] + [f_.dimensions for f_ in other]\n        shareddims = {}"),
+  (F, 'R-ATTRFIRST', _FN, "    p2p.addGlobalProperties(tmpf, f)\n    for tmpf in fs:", "    for tmpf in fs:\n        pass\n    p2p.addGlobalProperties(tmpf, f)\n    for tmpf in fs:"),
+]
+CATALOGUE['C05'] += [
+  (F, 'R-ALIAS', _F, "            outf.dimensions[newkey] = outf.dimensions[oldkey]", "            outf.dimensions[newkey] = self.dimensions[oldkey]"),
+]
+CATALOGUE['C06'] += [
+  (F, 'R-WHEREAPPLY', _F, "                    maskdims == vv.dimensions or\n                    (\n                        maskdims is None and\n                        where.shape == vals.shape\n                    )", "                    maskdims == vv.dimensions or\n                    np.shape(where) == vals.shape"),
+  (F, 'R-WHEREAPPLY', _F, "                    maskdims == vv.dimensions or\n                    (\n                        maskdims is None and\n                        where.shape == vals.shape\n                    )", "                    maskdims is None or maskdims == vv.dimensions"),
+  (S, None, _F, "                    maskdims == vv.dimensions or\n                    (\n                        maskdims is None and\n                        where.shape == vals.shape\n                    )", "                    (maskdims is None and where.shape == vals.shape) or\n                    maskdims == vv.dimensions"),
+  (F, 'R-COORDKEYS', _F, "        outf._operator_exclude_vars = tuple(self._operator_exclude_vars)\n", ""),
+  (S, None, _F, "        outf._operator_exclude_vars = tuple(self._operator_exclude_vars)\n", "        outf.setCoords(self.getCoords())\n"),
+]
+CATALOGUE['C07'] += [
+  (F, 'R-PARAMUSED', 'pncgen.py', "        nfile = get_ncf_object(npath, outmode, format=format)", "        nfile = get_ncf_object(npath, outmode)"),
+  (F, 'R-SCALARMASK', 'pncgen.py', "            if isinstance(pvar, NetCDFVariable):\n                pvar = pvar[...]\n            nvar[...] = pvar", "            nvar[...] = pvar.getValue()"),
+]
+CATALOGUE['C08'] += [
+  (F, 'R-CENTURY', 'ArrayTransforms.py', "where(date < 70000, 2000000, 1900000)", "where(date < 69000, 2000000, 1900000)"),
+  (F, 'R-KEYPARSE', 'camxfiles/lateral_boundary/Memmap.py', "        edgename = k.split('_')[0]\n        spcname = k[len(edgename) + 1:]", "        edgename, spcname = k.split('_')[:2]"),
+  (S, None, 'camxfiles/lateral_boundary/Memmap.py', "        edgename = k.split('_')[0]\n        spcname = k[len(edgename) + 1:]", "        edgename, spcname = k.split('_', 1)"),
+  (F, 'R-SRCUNTOUCHED', 'camxfiles/lateral_boundary/Write.py', "    date = date % (date // 100000 * 100000)\n    time_hdr['ibdate'] = date", "    date %= (date // 100000 * 100000)\n    time_hdr['ibdate'] = date"),
+  (F, 'R-CONVERT', 'camxfiles/one3d/Write.py', "            v2d = v2d.astype('>f')", "            v2d = v2d.astype(v2d.dtype.newbyteorder('>'))"),
+  (F, 'R-VARORDER', 'camxfiles/cloud_rain/Write.py', "    varkeys = [vk for vk in ['CLOUD', 'PRECIP', 'RAIN', 'SNOW',\n                             'GRAUPEL', 'COD']\n               if vk in ncffile.variables.keys()]", "    varkeys = [vk for vk in ncffile.variables.keys()\n               if vk in ('CLOUD', 'PRECIP', 'RAIN', 'SNOW',\n                         'GRAUPEL', 'COD')]"),
+]
+CATALOGUE['C09'] += [
+  (F, 'R-FRAME', 'camxfiles/one3d/Write.py', "            v2d = v2d.astype('>f')", "            v2d = v2d.astype(v2d.dtype.newbyteorder('>'))"),
+]
+CATALOGUE['C10'] += [
+  (F, 'R-GEOHANDLERS', _IO, "        if 'LAY' in kwds:\n            nlvls = outf.VGLVLS.size\n            lidx = np.array(\n                np.arange(outf.VGLVLS.size - 1)[kwds['LAY']], ndmin=1\n            )", "        layslice = dimslices.get('LAY')\n        if layslice:\n            nlvls = outf.VGLVLS.size\n            lidx = np.array(np.arange(nlvls - 1)[layslice], ndmin=1)"),
+  (F, 'R-VGLEN', _IO, "        ofile.VGLVLS = np.arange(nz + 1, dtype='f')", "        ofile.VGLVLS = np.arange(nz, dtype='f')"),
+]
+CATALOGUE['C11'] += [
+  (F, 'R-GEOHANDLERS', _IO, "        if 'LAY' in kwds:\n            nlvls = outf.VGLVLS.size\n            lidx = np.array(\n                np.arange(outf.VGLVLS.size - 1)[kwds['LAY']], ndmin=1\n            )", "        layslice = dimslices.get('LAY')\n        if layslice:\n            nlvls = outf.VGLVLS.size\n            lidx = np.array(np.arange(nlvls - 1)[layslice], ndmin=1)"),
+  (S, None, _IO, "        if 'LAY' in kwds:\n            nlvls = outf.VGLVLS.size\n            lidx = np.array(\n                np.arange(outf.VGLVLS.size - 1)[kwds['LAY']], ndmin=1\n            )", "        layslice = dimslices.get('LAY')\n        if layslice is not None:\n            nlvls = outf.VGLVLS.size\n            lidx = np.array(np.arange(nlvls - 1)[layslice], ndmin=1)"),
+]
+CATALOGUE['C12'] += [
+  (F, 'R-RESUNIT', _F, "        elif minres == 'second':\n            tu = 'datetime64[s]'", "        elif minres == 'second':\n            tu = 'datetime64[m]'"),
+  (S, None, _F, "        elif minres == 'second':\n            tu = 'datetime64[s]'", "        elif minres == 'second':\n            tu = 'datetime64[ms]'"),
+  (F, 'R-TIMEWIDTH', 'conventions/ioapi/_ioapi.py', "        time = np.array([(date - rdate).total_seconds() for date in dates])", "        time = np.array([(date - rdate).total_seconds()\n                         for date in dates]).astype('i')"),
+  (F, 'R-TFLAGORDER', _IO, "            if 'TFLAG' in self.variables:\n                del self.variables['TFLAG']\n            if startdate is not None:", "            if startdate is not None:"),
+]
+CATALOGUE['C15'] += [
+  (F, 'R-UNIQNAME', '_getreader.py', "    if name not in [k for k, v in _readers]:", "    if (name, reader) not in _readers:"),
+  (F, 'R-PATHKIND', '_getreader.py', "                ext = os.path.splitext(args[0])[1][1:]", "                ext = args[0].rsplit('.', 1)[-1]"),
+  (F, 'R-PERFILE', '_getreader.py', "    files = [pncopen(path, *args[1:], **kwds) for path in paths]", "    kwds['format'] = [k for k, v in _readers if v is getreader(paths[0])][0]\n    files = [pncopen(path, *args[1:], **kwds) for path in paths]"),
+]
+CATALOGUE['C16'] += [
+  (F, 'R-RESUNIT', _F, "        elif minres == 'second':\n            tu = 'datetime64[s]'", "        elif minres == 'second':\n            tu = 'datetime64[m]'"),
+  (F, 'R-EDGEPAIR', _F, "            isright = val > dimevals[-1]", "            isright = val > dimvals[-1]"),
+  (F, 'R-EDGEPAIR', _F, "                dimevals = np.append(dimbv[:, 0], dimbv[-1, 1])", "                dimevals = np.unique(dimbv[:])"),
+]
+CATALOGUE['C18'] += [
+  (F, 'R-PAIRCOLS', 'geoschemfiles/_bpch.py', "            data = np.array([self['tau0'], self['tau1']]).T", "            data = np.array([self['tau0'], self['tau1']]).reshape(-1, 2)"),
+  (F, 'R-TAUPAIR', 'geoschemfiles/_newbpch.py', "        self.center180 = tmpvar._header['center180'][0]", "        self.center180 = tmpvar._header['halfpolar'][0]"),
+]
+CATALOGUE['C19'] += [
+  (F, 'R-COLORDER', _FFI, "    print(delim.join(keys), file=outfile)", "    print(delim.join(f.variables.keys()), file=outfile)"),
+  (F, 'R-LODSYM', _FFI, "                ulod_values = ['N/A'] + ulod_values", "                ulod_values = ['N/A'] + llod_values"),
+]
+CATALOGUE['C20'] += [
+  (F, 'R-PACKROUND', _ARL, "        ICVAL = INT((RVAR[:, myI] - ROLD) * SCEXP + 127.5)", "        ICVAL = np.floor((RVAR[:, myI] - ROLD) * SCEXP + 127.5).astype(INT)"),
+  (F, 'R-HEADPAIR', _ARL, "            EXP = vhead['EXP']\n            props = dict(", "            EXP = vhead['EXP'][0]\n            props = dict("),
+  (F, 'R-NOSTATE', _ARL, ("def maparlpackedbit(path, mode='r', shape=None, props=None):", "    if props is None:\n        props = {}\n\n    if props == {}:"), ("def maparlpackedbit(path, mode='r', shape=None, props={}):", "    if not props:")),
+  (S, None, _ARL, "def readvardef(vheader, out={}):", "def readvardef(vheader, out=None):\n    out = {} if out is None else out"),
+]
+
+CATALOGUE['C13'] += [
+  (F, 'R-STEPARG', 'camxfiles/wind/Read.py', "        return timerange((self.start_date, self.start_time),\n                         timeadd((self.end_date, self.end_time),\n                                 (0, self.time_step)),\n                         self.time_step)", "        start = (self.start_date, self.start_time)\n        stop = timeadd((self.end_date, self.end_time), (0, self.time_step))\n        return timerange(start, stop)"),
+  (S, None, 'camxfiles/wind/Read.py', "        return timerange((self.start_date, self.start_time),\n                         timeadd((self.end_date, self.end_time),\n                                 (0, self.time_step)),\n                         self.time_step)", "        start = (self.start_date, self.start_time)\n        stop = timeadd((self.end_date, self.end_time), (0, self.time_step))\n        return timerange(start, stop, step=self.time_step)"),
+  (F, 'R-DATAWINDOW', 'camxfiles/temperature/Read.py', "            tmpmm = memmap(self.rffile.infile.name, '>f', 'r', pos,\n                           (self.area_count,))", "            firstshape = (self.area_count + 4,)\n            tmpmm = memmap(self.rffile.infile.name, '>f', 'r', pos, firstshape)\n            tmpmm = tmpmm[3:-1]"),
+  (F, 'R-DATAWINDOW', 'camxfiles/temperature/Read.py', "            tmpmm = tmpmm.reshape(*newshape1)[:, 3:-1]", "            tmpmm = tmpmm.reshape(*newshape1)[:, 2:-2]"),
+]
+CATALOGUE['C08'] += [
+  (F, 'R-TFLAGPAIR', 'camxfiles/uamiv/Memmap.py', "        tflag = ConvertCAMxTime(self.__memmap__['DATE']['BDATE'],\n                                self.__memmap__['DATE']['BTIME'],", "        datehdr = self.__memmap__['DATE']\n        tflag = ConvertCAMxTime(datehdr['EDATE'], datehdr['BTIME'],"),
+  (S, None, 'camxfiles/uamiv/Memmap.py', "        tflag = ConvertCAMxTime(self.__memmap__['DATE']['BDATE'],\n                                self.__memmap__['DATE']['BTIME'],", "        datehdr = self.__memmap__['DATE']\n        tflag = ConvertCAMxTime(datehdr['BDATE'], datehdr['BTIME'],"),
 ]
 
 
